@@ -59,6 +59,9 @@ fn main() {
         c.shard = 0;
         c.nshards = 1;
     }
+    let quiet_s: u64 = std::env::var("VH_QUIET_S").ok().and_then(|v| v.parse().ok()).unwrap_or(30);
+    let case_to: u64 = std::env::var("VH_CASE_TIMEOUT_S").ok().and_then(|v| v.parse().ok()).unwrap_or(300);
+    ctx::spawn_watchdog(quiet_s, if c.replay.is_some() { 3600 } else { case_to });
     if !mon::dispatch(&mut c) {
         eprintln!("unknown property {prop}");
         std::process::exit(2);
